@@ -279,6 +279,54 @@ def impl_pair(kind, n, par=None):
     raise ValueError(kind)
 
 
+def out_layout(kind):
+    """how the user callable hands its result back: the same VALUES in another memory layout / container / dtype"""
+    if kind is None:
+        return lambda a: a
+    if kind == "fortran":            # what LAPACK-backed routines and transposed products return
+        return lambda a: np.asfortranarray(a)
+    if kind == "transposed-view":    # (B.T) of a C-contiguous array: a view with swapped strides
+        return lambda a: np.ascontiguousarray(a.T).T if a.ndim == 2 else a[::-1].copy()[::-1]
+    if kind == "strided":            # a non-contiguous window of a larger buffer
+        def f(a):
+            big = np.zeros(tuple(2 * d for d in a.shape))
+            big[tuple(slice(None, None, 2) for _ in a.shape)] = a
+            return big[tuple(slice(None, None, 2) for _ in a.shape)]
+        return f
+    if kind == "float32":
+        return lambda a: a.astype(np.float32)
+    if kind == "matrix":             # a CUQIarray-free ndarray subclass? keep to plain containers: nested list
+        return lambda a: a.tolist()
+    raise ValueError(kind)
+
+
+def psf2d_documented(name, size, param):
+    """The shipped 2-d PSFs from their documentation, written independently of the library: a size x size array sampled on the integer grid
+    whose origin is the pixel with index size//2 (Gauss: exp(-(x^2+y^2)/(2 s^2)); Moffat (beta = 1): 1/(1+(x^2+y^2)/s^2); Defocus: the disc
+    x^2+y^2 <= R^2), normalised to sum 1.  For odd sizes these arrays are symmetric under both mirror flips."""
+    import math
+    c = size // 2
+    P = [[0.0] * size for _ in range(size)]
+    for i in range(size):
+        for j in range(size):
+            y, x = i - c, j - c
+            if name == "gauss":
+                P[i][j] = math.exp(-0.5 * ((x * x) / (param * param) + (y * y) / (param * param)))
+            elif name == "moffat":
+                P[i][j] = 1.0 / (1.0 + (x * x) / (param * param) + (y * y) / (param * param))
+            elif name == "defocus":
+                P[i][j] = (1.0 if (x * x + y * y) <= param * param else 0.0) if param != 0 else (1.0 if (x == 0 and y == 0) else 0.0)
+            else:
+                raise ValueError(name)
+    tot = sum(sum(r) for r in P)
+    return np.array([[v / tot for v in r] for r in P])
+
+
+def mirror_symmetric(P):
+    P = np.asarray(P, dtype=float)
+    return bool(P.shape[0] == P.shape[1] and np.allclose(P, P[::-1, :], rtol=1e-13, atol=0) and np.allclose(P, P[:, ::-1], rtol=1e-13, atol=0))
+
+
 def build_model(meta):
     """meta['model'] describes the model; returns M"""
     from cuqi.model import LinearModel
@@ -289,12 +337,13 @@ def build_model(meta):
         mod = tp.model
         if ms["tp"] == "deconv2d":
             # a custom PSF is taken from the case description; only the arrays of the named generators (C17) come from the object
-            P = np.asarray(ms["PSF"], dtype=float) if isinstance(ms["PSF"], list) else np.asarray(tp.Miscellaneous["PSF"], dtype=float)
+            # ... and the named PSFs are recomputed here from their documentation: nothing about the operator is read back from the problem
+            P = np.asarray(ms["PSF"], dtype=float) if isinstance(ms["PSF"], list) else psf2d_documented(ms["PSF"].lower(), ms["PSF_size"], ms["PSF_param"])
             S, n = max(P.shape), ms["dim"]
             bcn = BC2[ms["BC"].lower()]
             coq = "(deconv2_model %s %s %s %s)" % (bcn[1], cnat(S), cnat(n), enc_mat(P))
             D = mk_geom(["image", n, n, "C"])
-            return M(mod, coq, D, D, "testproblem", False, n * n, n * n, {"P": P, "pad": bcn[0], "S": S, "tp": tp})
+            return M(mod, coq, D, D, "testproblem", False, n * n, n * n, {"P": P, "pad": bcn[0], "S": S, "tp": tp, "msym": mirror_symmetric(P)})
         A = mod._matrix
         A = np.asarray(A.todense()) if sp.issparse(A) else np.asarray(A)
         n = ms["dim"]
@@ -347,8 +396,9 @@ def build_model(meta):
         return M(mod, coq, D, R, backing, exact, D.par_dim, R.par_dim, {"impl": ms["impl"], "mutates": mutates})
     if backing == "function":
         shpD, shpR = D.fun_shape, R.fun_shape
-        fwd = lambda X, A=A, s=shpR: (A @ np.asarray(X).ravel()).reshape(s)
-        adj = lambda Y, A=A, s=shpD: (A.T @ np.asarray(Y).ravel()).reshape(s)
+        lay = out_layout(ms.get("out_layout"))
+        fwd = lambda X, A=A, s=shpR: lay((A @ np.asarray(X).ravel()).reshape(s))
+        adj = lambda Y, A=A, s=shpD: lay((A.T @ np.asarray(Y).ravel()).reshape(s))
         mod = LinearModel(fwd, adj, R.obj, D.obj)
         coq = "(fun_model %s %s %s %s)" % (cnat(A.shape[1]), enc_mat(A), D.coq, R.coq)
         return M(mod, coq, D, R, backing, exact, D.par_dim, R.par_dim)
@@ -467,7 +517,13 @@ def nonidem_family(m):
 def adj_signature(m, meta):
     ms = meta["model"]
     if ms.get("tp") == "deconv2d":
-        pad = m.info["pad"]
+        pad, S, msym = m.info["pad"], m.info["S"], m.info["msym"]      # msym: of the PSF the problem was ASKED for, not of the one it holds
+        # half-sample symmetric extension with a PSF that is symmetric under both mirror flips gives a symmetric operator (= its flipped-PSF
+        # twin): the identity holds there; replicate padding of width 1 is the same extension
+        if pad == "symmetric" and S % 2 == 1 and msym:
+            return "_proj_backward_2D|pad:symmetric,mirror-symmetric-odd-PSF"
+        if pad == "edge" and S in (1, 3) and msym:
+            return "_proj_backward_2D|pad:edge,mirror-symmetric-3x3-PSF"
         if pad in ("symmetric", "edge", "reflect"):
             return "_proj_backward_2D|pad:" + pad
         if m.info["S"] % 2 == 0:
@@ -1132,6 +1188,18 @@ def run(ctx):
         for _ in range(reps):
             ms = {"backing": "function", "impl": kind, "n": n, "par": par, "A": [[int(v) for v in r] for r in A], "D": ["int", A.shape[1]], "R": ["cont1d", A.shape[0]]}
             add(ms, "fa", rvec(rng, A.shape[1]), rvec(rng, A.shape[0]), "function-view/%s/fa" % kind)
+
+    # ---- 2b'. callables that return their result in another memory layout (Fortran order as from LAPACK / transposed products, transposed
+    #           views, strided windows) or dtype: the conversion back to parameters must read VALUES, not buffers --------------------------------
+    lay_geoms = [["cont2d", 2, 3], ["cont2d", 3, 2], ["image", 2, 3, "C"], ["image", 3, 2, "F"], ["tuple", 2, 3], ["cont1d", 6], ["image_visual", 2, 3]]
+    for li, layout in enumerate(("fortran", "transposed-view", "strided", "float32")):
+        for gi, Ds in enumerate(lay_geoms):
+            for gj, Rs in enumerate(lay_geoms):
+                if not ctx.thorough and (gi + 2 * gj + li) % 4 != 0 and not (Ds[0] == "cont2d" and Rs[0] == "cont2d"):
+                    continue
+                for op in OPS:
+                    ms = {"backing": "function", "A": rmat(rng, 6, 6), "D": Ds, "R": Rs, "out_layout": layout}
+                    add(ms, op, rvec(rng, 6), rvec(rng, 6), "function-layout-%s/%s->%s/%s" % (layout, mk_geom(Ds).family, mk_geom(Rs).family, op))
 
     # ---- 2c. a MATRIX applied through image geometries: X |-> A X (get_matrix then returns the stored k x n matrix for a (k c) x (n c) map)
     for backing in ("dense", "csc"):
